@@ -151,6 +151,37 @@ func main() {
 		os.Exit(cmdReplay(os.Args[2:]))
 	case "selftest":
 		os.Exit(cmdSelftest(os.Args[2:]))
+	case "table":
+		// the registered runs as a markdown table (pasted into DESIGN.md section 19)
+		var ids []string
+		for id := range properties {
+			ids = append(ids, id)
+		}
+		sort.Strings(ids)
+		fmt.Println("| property | run | package | scheduler | P quick/thorough | ticks | tier |")
+		fmt.Println("|---|---|---|---|---|---|---|")
+		for _, id := range ids {
+			for _, r := range properties[id].Runs {
+				sched, p, tk, tier := "-", "-", "-", "quick+thorough"
+				if len(r.SwitchOn) > 0 {
+					sched = "fast plugins"
+					if r.Slow {
+						sched = "slow plugins"
+					}
+					p = fmt.Sprintf("%d / %d", r.P[0], r.P[1])
+					tk = fmt.Sprintf("%d / %d", r.Ticks[0], r.Ticks[1])
+				}
+				if r.ThoroughOnly {
+					tier = "thorough"
+					p = strings.TrimPrefix(p, fmt.Sprintf("%d / ", r.P[0]))
+				}
+				pkg := r.Pkg
+				if pkg == "" {
+					pkg = "(root)"
+				}
+				fmt.Printf("| %s | %s | %s | %s | %s | %s | %s |\n", id, r.Label(), pkg, sched, p, tk, tier)
+			}
+		}
 	default:
 		fmt.Fprintln(os.Stderr, "unknown command", os.Args[1])
 		os.Exit(2)
